@@ -260,6 +260,7 @@ def run_check(mod, tier: str, seed: int, jobs: int, cap_s: Optional[float] = Non
         print(f"KNOWN-FINDING: property={prop} {k.get('what', k['signature'])}")
     rc = 0
     reported = 0
+    unconfirmed = []
     for kind, lst in cands.items():
         # a failing case is re-executed in this process and in a fresh process before it is reported.  Cases that carry
         # their own operation history are tried first; a case that only fails because of what the worker executed before it
@@ -285,9 +286,7 @@ def run_check(mod, tier: str, seed: int, jobs: int, cap_s: Optional[float] = Non
                 path, ok_here, ok_fresh = ppath, True, True
                 v = pv
         if not (ok_here and ok_fresh):
-            print(f"HARNESS-ERROR property={prop} non-reproducible violation replay={path} "
-                  f"(same-process={ok_here}, fresh-process={ok_fresh})")
-            rc = max(rc, 2)
+            unconfirmed.append((kind, path, ok_here, ok_fresh))
             continue
         print(f"VIOLATION property={prop} replay={path}")
         sys.stderr.write(f"  {v['kind']}: {v.get('msg', '')}\n    case={json.dumps(v['case'], ensure_ascii=False, default=repr)[:600]}\n"
@@ -295,6 +294,16 @@ def run_check(mod, tier: str, seed: int, jobs: int, cap_s: Optional[float] = Non
                          f"    observed={json.dumps(v.get('observed'), ensure_ascii=False, default=repr)[:300]}\n")
         reported += 1
         rc = max(rc, 1)
+    # violation kinds whose recorded cases did not fail again from a fresh process (they depend on what the worker had executed
+    # before): if another kind WAS confirmed the run is a violation run and these are only noted; if nothing could be confirmed the
+    # machinery cannot stand behind the observation and says so (exit 2)
+    for kind, path, ok_here, ok_fresh in unconfirmed:
+        if reported:
+            sys.stderr.write(f"  note: a case of kind {kind} was observed but did not reproduce from a fresh process ({path})\n")
+        else:
+            print(f"HARNESS-ERROR property={prop} non-reproducible violation replay={path} "
+                  f"(same-process={ok_here}, fresh-process={ok_fresh})")
+            rc = max(rc, 2)
     _write_evidence(mod, tier, seed, desc, total, samples, outcomes, capped, len(items), len(results), t0,
                     violations=n_new, known=len(seen_known))
     wall = time.time() - t0
